@@ -79,8 +79,12 @@ def hb_events(run):
             ev = ("acq", a[1], "X")
         elif k in ("prd", "pld"):
             ev = ("rd", a[0], None)
-        elif k in ("pwr", "pst"):
+        elif k in ("pwr", "pst", "pwb"):
             ev = ("wr", a[0], None)
+        elif k == "cpb":        # copy assignment starts: read of the source ("?" = unregistered temporary)
+            ev = ("rd", a[1], None) if a[1] != "?" else ("nop", None, None)
+        elif k == "cpe":        # ... complete: write of the target
+            ev = ("wr", a[0], None) if a[0] != "?" else ("nop", None, None)
         else:
             ev = ("nop", None, None)
         if ev[0] in ("ld", "st", "rmw") and ev[2] not in ORDERS:
@@ -185,6 +189,10 @@ SELFTEST = [
     ("notify-no-edge", "race", ["0 cfg t 1", "2 pwr D 1", "2 cna cv", "1 prd D 1"]),
     ("tap-fields", "race", ["0 cfg t 1", "1 mlk m", "1 pst count 8 1", "1 mul m", "2 pld count 8 1"]),
     ("lockfam-disabled-unchecked", "accept", ["0 cfg lockfam go m 0", "1 pwr P 1", "2 prd P 1"]),
+    ("copy-window-reads-source", "race", ["0 cfg t 1", "1 pwr A 1", "2 cpb B A", "2 cpe B A 1"]),
+    ("copy-window-writes-target", "race", ["0 cfg t 1", "1 prd B -", "2 cpb B ?", "2 cpe B ? 1"]),
+    ("modify-window-begin-is-write", "race", ["0 cfg t 1", "1 prd A -", "2 pwb A"]),
+    ("copy-from-temporaries", "accept", ["0 cfg t 1", "1 cpb B ?", "2 cpb C ?"]),
     ("unknown-with-order", "reject", ["0 cfg t 1", "1 afn a0 sc"]),
     ("unknown-on-known-mutex", "reject", ["0 cfg t 1", "1 mlk m0", "1 mul m0", "1 mxx m0"]),
     ("bad-order", "reject", ["0 cfg t 1", "1 ald a0 weird 0"]),
